@@ -78,6 +78,25 @@ def hygiene(files=None):
     return bad
 
 
+def closure(rel_files):
+    """.v files (absolute) reachable from the given files (relative to coq/) through `From EN Require ...`."""
+    seen, todo = set(), [os.path.join(COQ, r) for r in rel_files]
+    while todo:
+        path = todo.pop()
+        if path in seen or not os.path.exists(path):
+            continue
+        seen.add(path)
+        text = strip_comments(open(path).read())
+        for m in re.finditer(r"From\s+EN\s+Require\s+(?:Import\s+|Export\s+)?(.+?)\.(?:\s|$)", text, re.S):
+            for name in m.group(1).split():
+                todo.append(os.path.join(COQ, name.replace(".", "/") + ".v"))
+        for m in re.finditer(r"(?<!EN\s)Require\s+(?:Import\s+|Export\s+)?(.+?)\.(?:\s|$)", text, re.S):
+            for name in m.group(1).split():
+                if name.startswith("EN."):
+                    todo.append(os.path.join(COQ, name[3:].replace(".", "/") + ".v"))
+    return sorted(seen)
+
+
 def write_coqproject():
     files = [os.path.relpath(p, COQ) for p in all_v_files()]
     body = "-Q . EN\n-arg -w -arg -notation-overridden,-deprecated-hint-without-locality,-deprecated-instance-without-locality\n"
